@@ -23,6 +23,8 @@ SAMPLING = ("suite_sampling", {"n": {"quick": 160, "thorough": 3000}, "subprocs"
 TRANSFORMS_SMALL = ("suite_transforms", {"n": {"quick": 200, "thorough": 3000}})
 HYPERBAND_SMALL = ("suite_hyperband", {"n": {"quick": 40, "thorough": 800}})
 
+SYNC = ("suite_sync", {"n": {"quick": 200, "thorough": 4000}})
+
 NOT_CLAIMED = {}
 
 CORE_NOTE = ("Trusted: Lean kernel; the hand-written generic oracle model (Ktm/Core.lean: create/update/endT over an arbitrary "
@@ -172,4 +174,17 @@ PROPS = {
                           "sklearn / scipy with fixed random_state; checked by running scenarios twice and in a fresh interpreter with another "
                           "PYTHONHASHSEED). Known finding F14 (unseeded fill-in on Hyperband promotion after discovery).",
             "assumptions": ["random.Random(seed) is deterministic"]},
+    "C17": {"suites": [SYNC],
+            "level_text": "Theorems (Ktm/Props/C17.lean), for any number of threads and every schedule over the wrapper's shared operations: mutual "
+                          "exclusion; linearizability (the oracle state equals the sequential composition of the calls in write order although each "
+                          "call is a non-atomic read-modify-write); a raising call leaves the lock free and the owner cleared; a nested call from the "
+                          "owning thread skips the lock; only acquire can block and only while the lock is held. The original wrapper's two failing "
+                          "schedules are proved by decide.",
+            "level_note": "The model is at shared-operation granularity (owner read / acquire / owner write / body read / body write / owner clear / "
+                          "release; lock lookup and creation under the guard as one atomic step); CPython bytecode-level preemption inside one of "
+                          "these operations and OS scheduling are not modelled. The tie to the code is a deterministic cooperative scheduler over "
+                          "real threads running the real `synchronized` (module attributes of keras_tuner.engine.oracle replaced from the harness: "
+                          "threading, THREADS, LOCKS, LOCKS_GUARD): every executed schedule is replayed on the model and all intermediate states "
+                          "compared. Independence of different oracles is checked by a scripted scenario, not proved (the model has one oracle).",
+            "assumptions": ["granularity of preemption = the wrapper's shared operations"]},
 }
